@@ -679,8 +679,30 @@ func headerUsesIn(p *core.Program, info *types.Info, fd *ast.FuncDecl, withFacts
 					if cst := resolve(ie.Index); cst != nil {
 						record(y, cst, true)
 					} else {
-						for _, cst := range localConsts(ie.Index) {
-							record(y, cst, true) // without distinguishing which: over-approximates writes
+						got := false
+						body := enclosingBody(fd, y)
+						seen := map[string]bool{}
+						astx.ForEachPathTo(info, body, y, func(s *astx.State) {
+							if c2 := s.ConstObjOnPath(info, ie.Index); c2 != nil {
+								got = true
+								u := headerUse{cst: c2, write: true, pos: y.Pos(), fn: core.FuncName(fd)}
+								if withFacts {
+									u.facts = factsOf(s)
+								}
+								k := c2.Name()
+								for _, f := range u.facts {
+									k += "|" + astx.CanonKey(info, f.Expr) + fmt.Sprint(f.Pol)
+								}
+								if !seen[k] {
+									seen[k] = true
+									out = append(out, u)
+								}
+							}
+						})
+						if !got {
+							for _, cst := range localConsts(ie.Index) {
+								record(y, cst, true) // without distinguishing which: over-approximates writes
+							}
 						}
 					}
 				}
@@ -690,16 +712,38 @@ func headerUsesIn(p *core.Program, info *types.Info, fd *ast.FuncDecl, withFacts
 			if fn == nil || !astx.TypeIs(recvType(fn), "net/http", "Header") || len(y.Args) == 0 {
 				return true
 			}
-			cst := resolve(y.Args[0])
-			if cst == nil {
-				return true
-			}
+			write := false
 			switch fn.Name() {
 			case "Get", "Values":
-				record(y, cst, false)
 			case "Set", "Add":
-				record(y, cst, true)
+				write = true
+			default:
+				return true
 			}
+			cst := resolve(y.Args[0])
+			if cst == nil {
+				// the key is a variable: resolve it per path (a header name chosen by a branch or a helper)
+				body := enclosingBody(fd, y)
+				seen := map[string]bool{}
+				astx.ForEachPathTo(info, body, y, func(s *astx.State) {
+					if c2 := s.ConstObjOnPath(info, y.Args[0]); c2 != nil {
+						u := headerUse{cst: c2, write: write, pos: y.Pos(), fn: core.FuncName(fd)}
+						if withFacts {
+							u.facts = factsOf(s)
+						}
+						k := c2.Name() + "|" + fmt.Sprint(len(u.facts))
+						for _, f := range u.facts {
+							k += "|" + astx.CanonKey(info, f.Expr) + fmt.Sprint(f.Pol)
+						}
+						if !seen[k] {
+							seen[k] = true
+							out = append(out, u)
+						}
+					}
+				})
+				return true
+			}
+			record(y, cst, write)
 		}
 		return true
 	})
